@@ -533,6 +533,15 @@ def TV(text):
     return {ord(c) for c in re.findall("[" + body + "]", _TV_UNIVERSE, re.S)}
 
 
+def ISGLOBALWORD(x):
+    import pregex.core.classes as cl
+    return isinstance(x, (cl.AnyWordChar, cl.AnyButWordChar)) and x._is_global()
+
+
+def VEMPTY(v):
+    return len(v) == 0
+
+
 def ISANY(x):
     import pregex.core.classes as cl
     return isinstance(x, cl.Any)
